@@ -427,6 +427,16 @@ def c17(run, replay=None):
                 f["symlink"] = True       # identity must be the path the file was asked for, not where the link points
             files[names[d]] = f
         cases.append(dict(files=files, desc=dict(tree=n, depth=depth)))
+    # recursion: a file that includes itself (directly, through another file, under ignore_errors) stops at the depth
+    # limit (32 nested includes; the model's fuel is 33) with a failed include task, not with a crash
+    selfinc = dict(tasks=[task(('debug', lit('<<lvl>>'))), task(('include', 'self.rh'))])
+    cases.append(dict(files={"main.rh": dict(tasks=[INIT, task(('include', 'self.rh')), probe("never")]), "self.rh": selfinc}, desc=dict(tree="self-include")))
+    inc_ign = task(('include', 'self.rh'))
+    inc_ign["ignore"] = True
+    cases.append(dict(files={"main.rh": dict(tasks=[INIT, inc_ign, probe("after")]), "self.rh": selfinc}, desc=dict(tree="self-include ignored")))
+    pa = dict(tasks=[task(('debug', lit('<<a>>'))), task(('include', 'pong.rh'))])
+    pb = dict(tasks=[task(('debug', lit('<<b>>'))), task(('include', 'ping.rh'))])
+    cases.append(dict(files={"main.rh": dict(tasks=[INIT, task(('include', 'ping.rh'))]), "ping.rh": pa, "pong.rh": pb}, desc=dict(tree="mutual include")))
     j = judge(run, cases, "include semantics")
     finish_cov(run, j,
                "include chains of depth 1-3 through files in different directories (a third of the files, the main script included, reached through symbolic links), includes under loop / when / ignore_errors, every file printing rash.path, rash.dir and a caller variable at start and end, "
